@@ -82,9 +82,12 @@ Proof.
       cbn [all_sixbits flat_map length]. rewrite app_nil_r. f_equal. lia.
     + rewrite IH by (try exact Hp; discriminate). cbn [bind]. f_equal.
       change (all_sixbits (c :: d :: p')) with (sixbits c ++ all_sixbits (d :: p')).
-      rewrite firstn_app, sixbits_length.
-      rewrite firstn_all2 by (rewrite sixbits_length; cbn [length]; lia).
-      f_equal. f_equal. cbn [length]. lia.
+      set (tl_ := d :: p') in *.
+      assert (Hl : (1 <= length tl_)%nat) by (subst tl_; cbn [length]; lia).
+      replace (length (c :: tl_)) with (S (length tl_)) by reflexivity.
+      rewrite firstn_app. rewrite (sixbits_length c).
+      rewrite (firstn_all2 (sixbits c)) by (rewrite sixbits_length; lia).
+      f_equal. f_equal. lia.
 Qed.
 
 (* cutting the payload: all fragments but the last carry no fill bits *)
